@@ -107,7 +107,12 @@ class CanvasCache:
             depends = []
             for _x, _y, c, _pos in canv.children:
                 if c.widget_info:
-                    depends.append(c.widget_info[0])
+                    child = c.widget_info[0]
+                    if not any(ref() is c for ref in cls._widgets.get(child, {}).values()):
+                        # this canvas of the child was not cached (the child may still be cached
+                        # for another size): nothing would invalidate us when the child changes
+                        raise LookupError(child)
+                    depends.append(child)
                 elif hasattr(c, "children"):
                     depends.extend(walk_depends(c))
             return depends
@@ -115,7 +120,10 @@ class CanvasCache:
         # use explicit depends_on if available from the canvas
         depends_on = getattr(canvas, "depends_on", None)
         if depends_on is None and hasattr(canvas, "children"):
-            depends_on = walk_depends(canvas)
+            try:
+                depends_on = walk_depends(canvas)
+            except LookupError:
+                return
         if depends_on:
             for w in depends_on:
                 if w not in cls._widgets:
